@@ -199,6 +199,30 @@ def check_native_case(mn, mx, total, cuts, seed, key=b'\x01\x02\x03\x04\x05\x06\
         A._replicat_adapters = saved
     if r1 != out or r3 != out:
         return False, 'result depends on earlier calls of the same adapter instance'
+    # ... nor by calls that are still in progress: two generators of one instance advanced alternately (what two snapshots
+    # running on one Repository object do from their producer threads) give what each gives alone
+    data_b = _stream(total + 5, seed + 17)
+    pieces_b = [data_b[i:i + max(mx, 1)] for i in range(0, len(data_b), max(mx, 1))] or [b'']
+    A._replicat_adapters = _Mod(native_factory)
+    try:
+        inst = A.gclmulchunker(min_length=mn, max_length=mx)
+        solo_b = list(inst(iter(pieces_b), params=key2))
+        ga, gb = inst(iter(pieces), params=key), inst(iter(pieces_b), params=key2)
+        ra, rb = [], []
+        turn = [(1, 1), (2, 1), (1, 3)][seed % 3]
+        live = [[ga, ra, turn[0]], [gb, rb, turn[1]]]
+        while live:
+            for ent in list(live):
+                for _ in range(ent[2]):
+                    try:
+                        ent[1].append(next(ent[0]))
+                    except StopIteration:
+                        live.remove(ent)
+                        break
+    finally:
+        A._replicat_adapters = saved
+    if ra != out or rb != solo_b:
+        return False, 'two chunk generators of one adapter instance advanced alternately differ from the same calls run one after the other'
     if r2 != run_wrapper(mn, mx, pieces, native_factory, params=key2) or r0 != run_wrapper(mn, mx, pieces, native_factory, params=None):
         return False, 'result for another key depends on earlier calls of the same adapter instance'
     for res in (ref, out):
